@@ -354,19 +354,19 @@ func c20Queries(c *Ctx) {
 		c.Guard(sig, func() {
 			if bc.is64 {
 				g, cnt := x.b64.SumBigValues(x.fs64(f))
-				planesFit := x.bitCount() < 62
-				if planesFit && (g.Cmp(sum) != 0 || cnt != uint64(len(f.cols))) {
-					c.Fail(sig+"/SumBigValues", "SumBigValues(found=%s)=(%s,%d) want (%s,%d); map=%s", f.name, g, cnt, sum, len(f.cols), m)
+				if g.Cmp(sum) != 0 || cnt != uint64(len(f.cols)) {
+					c.Fail(sig+"/SumBigValues", "SumBigValues(found=%s)=(%s,%d) want (%s,%d); BitCount=%d map=%s", f.name, g, cnt, sum, len(f.cols), x.bitCount(), m)
 				}
-				if planesFit && sum.IsInt64() {
+				if sum.IsInt64() {
 					if gs, _ := x.b64.Sum(x.fs64(f)); gs != sum.Int64() {
 						c.Fail(sig+"/Sum", "Sum(found=%s)=%d want %s", f.name, gs, sum)
 					}
 				}
-			} else if !m.hasNegative() && sum.IsInt64() && x.bitCount() < 62 {
+			} else if sum.IsInt64() {
+				// the 32-bit index adds popcount<<plane in wrapping int64 arithmetic, which is exact modulo 2^64
 				g, cnt := x.b32.Sum(x.fs32(f))
 				if g != sum.Int64() || cnt != uint64(len(f.cols)) {
-					c.Fail(sig+"/Sum", "Sum(found=%s)=(%d,%d) want (%s,%d); map=%s", f.name, g, cnt, sum, len(f.cols), m)
+					c.Fail(sig+"/Sum", "Sum(found=%s)=(%d,%d) want (%s,%d); BitCount=%d map=%s", f.name, g, cnt, sum, len(f.cols), x.bitCount(), m)
 				}
 			}
 			c.Eval(1)
